@@ -8,6 +8,9 @@ C13 — a feature reported as supported is backed by an implementation.
                         FacadeFeatures.get_feature answers anything but Unsupported, some member
                         the feature stands for is routed to an implementing protocol
                         (never NotSupportedError) — whoever holds a takeover;
+* `all_features_reported_is_backed`, `all_features_entries`, `in_state_reported_is_backed`
+                        the same for the other public ways of reading the features interface
+                        (Features.all_features with / without include_unsupported, Features.in_state);
 * `fresh_reported_is_backed`  the same in the freshly set-up state (the state the tables
                         were extracted in), either AirPlay video flag;
 * `table`               the 31 × 66 rows, `decide +kernel` on the regenerated tables;
@@ -112,6 +115,44 @@ theorem reported_is_backed (S : PSet) (hS : S.nonempty = true) (env : Env) (t : 
     simp only [mkRelayer, Bool.and_eq_true] at hp
     exact ⟨hp.1.1, hp.2⟩
 
+/-- **C13 for `all_features()`**: whatever `FacadeFeatures.all_features` lists in a state other
+    than Unsupported (with or without `include_unsupported`) is backed -/
+theorem all_features_reported_is_backed (S : PSet) (hS : S.nonempty = true) (env : Env)
+    (t : Iface → List Proto) (includeUnsupported : Bool) (f : Feature) (st : FState)
+    (hmem : (f, st) ∈ allFeatures S env includeUnsupported) (hst : st ≠ .unsupported) :
+    ∃ m ∈ featureMembers f, ∃ p, route S (t m.iface) m = .ok p ∧ S.mem p = true ∧ impl p m = true := by
+  unfold allFeatures at hmem
+  obtain ⟨hm, _⟩ := List.mem_filter.mp hmem
+  obtain ⟨g, _, hg⟩ := List.mem_map.mp hm
+  cases hg
+  exact reported_is_backed S hS env t f hst
+
+/-- `all_features(include_unsupported=True)` has exactly one entry per feature name, and the
+    default call exactly the ones get_feature reports in another state than Unsupported -/
+theorem all_features_entries (S : PSet) (env : Env) (b : Bool) (f : Feature) (st : FState) :
+    (f, st) ∈ allFeatures S env b ↔ st = facadeFeature S env f ∧ (st ≠ .unsupported ∨ b = true) := by
+  unfold allFeatures
+  simp only [List.mem_filter, List.mem_map, Prod.mk.injEq, Bool.or_eq_true, bne_iff_ne, ne_eq]
+  constructor
+  · rintro ⟨⟨g, _, rfl, rfl⟩, h⟩
+    exact ⟨rfl, h⟩
+  · rintro ⟨rfl, h⟩
+    exact ⟨⟨f, Feature.mem_all f, rfl, rfl⟩, h⟩
+
+/-- **C13 for `in_state`**: when `in_state(states, names…)` answers True for states that do not
+    include Unsupported, every one of the named features is backed -/
+theorem in_state_reported_is_backed (S : PSet) (hS : S.nonempty = true) (env : Env)
+    (t : Iface → List Proto) (states : List FState) (names : List Feature)
+    (h : inState S env states names = true) (hu : FState.unsupported ∉ states) (f : Feature) (hf : f ∈ names) :
+    ∃ m ∈ featureMembers f, ∃ p, route S (t m.iface) m = .ok p ∧ S.mem p = true ∧ impl p m = true := by
+  unfold inState at h
+  rw [List.all_eq_true] at h
+  have hc := h f hf
+  have hmem : facadeFeature S env f ∈ states := by simpa using hc
+  refine reported_is_backed S hS env t f ?_
+  intro he
+  exact hu (he ▸ hmem)
+
 theorem fresh_reported_is_backed (S : PSet) (hS : S.nonempty = true) (video : Bool) (f : Feature)
     (h : facadeFeature S (freshEnv video) f ≠ .unsupported) :
     ∃ m ∈ featureMembers f, ∃ p, route S [] m = .ok p ∧ S.mem p = true ∧ impl p m = true :=
@@ -134,6 +175,12 @@ example : facadeFeature ⟨false, false, false, false, true⟩ (freshEnv true) .
     backed ⟨false, false, false, false, true⟩ (fun _ => []) .f_PushUpdates = true := by decide
 /-- not everything is reported: AirPlay alone does not report Volume -/
 example : facadeFeature ⟨false, false, false, true, false⟩ (freshEnv true) .f_Volume = .unsupported := by decide
+example : (.f_Volume, .unsupported) ∉ allFeatures ⟨false, false, false, true, false⟩ (freshEnv true) false ∧
+    (.f_Volume, .unsupported) ∈ allFeatures ⟨false, false, false, true, false⟩ (freshEnv true) true ∧
+    (.f_Stop, .available) ∈ allFeatures ⟨false, false, false, true, false⟩ (freshEnv true) false := by decide +kernel
+example : inState ⟨false, false, false, true, false⟩ (freshEnv true) [.available] [.f_PlayUrl, .f_Stop] = true ∧
+    inState ⟨false, false, false, true, false⟩ (freshEnv true) [.available, .unavailable, .unknown] [.f_Volume] = false := by
+  decide +kernel
 example : failingRows = [] := by decide +kernel
 
 end PyatvModel.Props.C13
